@@ -128,6 +128,14 @@ where
         let (mut expanded_key_index, mut key_as_words_index) = (0, 0);
         let (mut a, mut b) = (W::ZERO, W::ZERO);
 
+        // RC5 prescribes c = max(1, ceil(8b/w)): the empty key (b = 0) is a single zero word
+        let mut empty_key = [W::ZERO];
+        let key_as_words: &mut [W] = if key_as_words.is_empty() {
+            &mut empty_key
+        } else {
+            &mut key_as_words
+        };
+
         for _ in 0..3 * max(key_as_words.len(), key_table.len()) {
             key_table[expanded_key_index] = key_table[expanded_key_index]
                 .wrapping_add(a)
